@@ -20,7 +20,8 @@ for d in sorted(glob.glob(os.path.join(ROOT, "seeded", "*"))):
         s = c.get("existing_suite_with_change", {})
         conf += f"; existing tests ({', '.join(s.get('scope', [])) if isinstance(s.get('scope'), list) else s.get('scope')}): {c['existing_suite_verdict']}"
     else:
-        conf += "; existing tests: run by the author of the change (see meta.json), my own run pending"
+        conf += "; existing tests: run by the author of the change (commands and results in meta.json); my own scoped run did not fit into the time budget"
     cut = lambda t, n: (t[:n] + "…") if len(t) > n else t
     esc = lambda t: str(t).replace("|", "\\|").replace("\n", " ")
-    print(f"| {name} | {m.get('property','?')} | {esc(cut(m.get('summary',''), 420))} | {esc(cut(m.get('needs',''), 300))} | {esc(conf)} | {esc(det)} |")
+    summary, needs = cut(m.get("summary", ""), 260), cut(m.get("needs", ""), 200)
+    print(f"| {name} | {m.get('property','?')} | {esc(summary)} | {esc(needs)} | {esc(conf)} | {esc(det)} |")
